@@ -27,6 +27,7 @@ type Job struct {
 	Shards  int64           `json:"shards"`
 	Resume  int64           `json:"resume"` // skip every idx < Resume
 	Only    int64           `json:"only"`   // if >= 0 run just this index
+	Until   int64           `json:"until"`  // if > 0 skip every idx > Until (window re-runs of the supervisor)
 	Skip    []int64         `json:"skip"`   // indices that killed an earlier incarnation of this shard
 	CurFile string          `json:"cur_file"`
 	Params  json.RawMessage `json:"params"`
@@ -104,6 +105,9 @@ func (w *Worker) Mine(idx int64) bool {
 		return idx == j.Only
 	}
 	if idx < j.Resume || (len(w.skip) > 0 && w.skip[idx]) {
+		return false
+	}
+	if j.Until > 0 && idx > j.Until {
 		return false
 	}
 	return idx%j.Shards == j.Shard
